@@ -330,6 +330,12 @@ theorem exec_good : ∀ (fuel : Nat) (ro : Bool) (gas : Nat) (p : List (Prog N))
         · rw [ha, hb2]
           exact hgood
 
+/-- the transaction wrapper: anything but a normal end hands back the initial view -/
+theorem tx_wrap_fail (r : Outcome × View N × Nat) (v : View N) :
+    (if r.1 = .ok then (Outcome.ok, r.2.1, r.2.2) else (r.1, v, if r.1 = .revert then r.2.2 else 0)).1 ≠ .ok →
+    (if r.1 = .ok then (Outcome.ok, r.2.1, r.2.2) else (r.1, v, if r.1 = .revert then r.2.2 else 0)).2.1 = v := by
+  by_cases hok : r.1 = .ok <;> simp [hok]
+
 /-! ## without panics there is no abort -/
 
 theorem runInner_ne_panic (ev : Eval N) (ro : Bool) :
